@@ -134,4 +134,81 @@ theorem isOutOfBounds_spec {size : Int} {vals : List Value} {r : Value} (h : isO
   · rename_i v hv; injection h with h; subst h; exact impl false hv
   · exact impl true h
 
+theorem overrun_flag {dims : List (Int × List Value)} (h : (overrunIndexValues dims).2 = true) :
+    ∃ d ∈ dims, ∃ v, isOutOfBounds d.1 d.2 = some v ∧ v ∈ (overrunIndexValues dims).1 := by
+  induction dims with
+  | nil => simp [overrunIndexValues] at h
+  | cons d rest ih =>
+    obtain ⟨size, vals⟩ := d
+    unfold overrunIndexValues at h ⊢
+    cases hb : isOutOfBounds size vals with
+    | some v =>
+      simp only []
+      exact ⟨(size, vals), List.mem_cons_self, v, hb, List.mem_cons_self⟩
+    | none =>
+      simp only [hb] at h ⊢
+      obtain ⟨d', hd', v, hv, hm⟩ := ih h
+      exact ⟨d', List.mem_cons_of_mem _ hd', v, hv, List.mem_cons_of_mem _ hm⟩
+
+theorem negative_flag {o : Opts} {dims : List (Int × List Value)}
+    (h : dims.any (fun d => (getValueLE o d.2 (-1)).isSome) = true) :
+    ∃ d ∈ dims, ∃ v, getValueLE o d.2 (-1) = some v ∧ v ∈ dims.map (fun d => (getValueLE o d.2 (-1)).getD unknownValue) := by
+  obtain ⟨d, hd, hs⟩ := List.any_eq_true.mp h
+  obtain ⟨v, hv⟩ := Option.isSome_iff_exists.mp hs
+  refine ⟨d, hd, v, hv, ?_⟩
+  exact List.mem_map.mpr ⟨d, hd, by simp [hv]⟩
+
+theorem pickIndex_mem : ∀ (l : List Value) (i : Option Value) (r : Value), pickIndex i l = some r → i = some r ∨ r ∈ l := by
+  intro l
+  induction l with
+  | nil => intro i r h; simp [pickIndex] at h; exact Or.inl h
+  | cons v rest ih =>
+    intro i r h
+    cases i with
+    | none =>
+      simp only [pickIndex] at h
+      rcases ih _ _ h with h1 | h1
+      · injection h1 with h1; subst h1; exact Or.inr List.mem_cons_self
+      · exact Or.inr (List.mem_cons_of_mem _ h1)
+    | some i0 =>
+      simp only [pickIndex] at h
+      rcases ih _ _ h with h1 | h1
+      · injection h1 with h1
+        by_cases hp : v.hasErrorPath = true
+        · simp [hp] at h1; subst h1; exact Or.inr List.mem_cons_self
+        · simp [hp] at h1; subst h1; exact Or.inl rfl
+      · exact Or.inr (List.mem_cons_of_mem _ h1)
+
+/-- what an error-severity report of `indexVectorError` says about the vector: as found, the picked `index` (a member of the
+    vector) has errorSeverity; in the graded variant every member has -/
+theorem indexVectorError_error {o : Opts} {a b : String} {indexes : List Value} {r : Report}
+    (hr : r ∈ indexVectorError o a b indexes) (he : r.sev = .error) :
+    (o.gradedIndexVector = true → ∀ v ∈ indexes, v.errorSeverity = true) ∧
+    (o.gradedIndexVector = false → ∃ v ∈ indexes, v.errorSeverity = true) := by
+  unfold indexVectorError at hr
+  split at hr
+  · simp at hr
+  · split at hr
+    · simp at hr
+    · rename_i index hidx
+      have hmem : index ∈ indexes := by
+        rcases pickIndex_mem indexes none index hidx with h | h
+        · exact absurd h (by simp)
+        · exact h
+      by_cases hg : o.gradedIndexVector = true
+      · simp only [hg, if_true] at hr
+        simp at hr; subst hr
+        refine ⟨fun _ v hv => ?_, fun h => by simp [hg] at h⟩
+        simp only [sevOf] at he
+        by_cases hall : (indexes.all fun v => v.errorSeverity) = true
+        · exact List.all_eq_true.mp hall v hv
+        · simp [hall] at he
+      · simp only [hg] at hr
+        simp at hr; subst hr
+        refine ⟨fun h => absurd h hg, fun _ => ⟨index, hmem, ?_⟩⟩
+        simp only [sevOf] at he
+        by_cases hes : index.errorSeverity = true
+        · exact hes
+        · simp [hes] at he
+
 end Cppcheck.SevDecide
